@@ -106,6 +106,8 @@ def gen_config(r):
                                                r.randint(1, 254)),
                          'home_is_parent_of_cwd': r.chance(0.3),
                          'ip_unresolvable': r.chance(0.1),
+                         'tmpdir_is_symlink': r.chance(0.2),
+                         'outputs_keep_fixed_mtime': r.chance(0.2),
                          'default_encoding': r.weighted([(9, None),
                                                          (1, 'cp1252')])},
             'clock0': base.isoformat()}
@@ -433,6 +435,12 @@ class SimPopen(object):
                 with io.open(p, 'wb') as f:
                     f.write(bytes.fromhex(e['hex']) if 'hex' in e
                             else text_of(e).encode('utf-8'))
+                if sim.cfg['identity'].get('outputs_keep_fixed_mtime'):
+                    # the command normalises the time stamps of what it
+                    # writes (reproducible-build style)
+                    os.utime(p, (1000000000, 1000000000))
+                    sim.ctx.stats['probes']['output_with_normalised_mtime'] \
+                        += 1
                 ap = os.path.abspath(p)
                 if sim.same_tick and ap in sim.ctimes:
                     sim.ctx.stats['faults']['ctime_same_tick'] += 1
@@ -485,6 +493,14 @@ class Patches(object):
             error=_socket.error, herror=_socket.herror)
         g.getpass = types.SimpleNamespace(getuser=lambda: ident['user'])
         g.os = OsProxy(sim)
+        if sim.cfg['identity'].get('tmpdir_is_symlink') and \
+                not os.path.lexists(ident['tmpdir']):
+            # the system's temporary directory is reached through a link
+            # (/tmp -> /private/tmp and the like)
+            real = ident['tmpdir'] + '-real'
+            os.makedirs(real, exist_ok=True)
+            os.symlink(real, ident['tmpdir'])
+            sim.ctx.stats['probes']['tmpdir_reached_through_symlink'] += 1
         os.makedirs(ident['tmpdir'], exist_ok=True)
         g.TMPDIR = ident['tmpdir']
         g.TERM_TMPDIR = ident['tmpdir'] + os.path.sep
